@@ -1,5 +1,4 @@
-import Drivers.Wire
-import Model.Space
+import Drivers.SpaceWire
 
 /-!
 Driver for C09 (space transforms).  One JSON request per line.
@@ -21,136 +20,6 @@ Ops
 -/
 
 open Lean DH.Wire DH.Space
-
-def jVal (j : Json) : Except String Val := do
-  let t ← (← field j "t").getStr?
-  let v ← field j "v"
-  match t with
-  | "f" => return .num (← jRat v)
-  | "i" => return .int (← jInt v)
-  | "s" => return .str (← jStr v)
-  | "b" => return .bool (← jBool v)
-  | _ => throw s!"bad val tag {t}"
-
-def ofVal : Val → Json
-  | .num q => Json.mkObj [("t", "f"), ("v", ofRat q)]
-  | .int i => Json.mkObj [("t", "i"), ("v", Json.num (JsonNumber.fromInt i))]
-  | .str s => Json.mkObj [("t", "s"), ("v", s)]
-  | .bool b => Json.mkObj [("t", "b"), ("v", b)]
-
-def jPrior (j : Json) : Except String Prior := do
-  match ← j.getStr? with
-  | "uniform" => return .uniform
-  | "log-uniform" => return .logUniform
-  | s => throw s!"bad prior {s}"
-
-def jDim (j : Json) : Except String Dim := do
-  let k ← (← field j "k").getStr?
-  let tr ← (← field j "tr").getStr?
-  match k with
-  | "real" | "int" =>
-    let p ← jPrior (← field j "prior")
-    let t ← match tr with
-      | "identity" => pure NumTr.identity
-      | "normalize" => pure NumTr.normalize
-      | s => throw s!"bad numeric transform {s}"
-    if k == "real" then
-      return .real (← jRat (← field j "lo")) (← jRat (← field j "hi")) p t
-    else
-      return .int (← jInt (← field j "lo")) (← jInt (← field j "hi")) p t
-  | "cat" =>
-    let cs ← jList jVal (← field j "cats")
-    let t ← match tr with
-      | "identity" => pure CatTr.identity
-      | "label" => pure CatTr.label
-      | "onehot" => pure CatTr.onehot
-      | "normalize" => pure CatTr.normalize
-      | s => throw s!"bad categorical transform {s}"
-    return .cat cs t
-  | s => throw s!"bad dim kind {s}"
-
-def jPairs (j : Json) : Except String (List (Rat × Rat)) :=
-  jList (fun p => do
-    match ← jList jRat p with
-    | [a, b] => return (a, b)
-    | _ => throw "pair expected") j
-
-/-- exact table lookup (0 for a missing key; missing keys are reported in `lmissing`) -/
-def tabL (t : List (Rat × Rat)) (x : Rat) : Rat :=
-  match t.find? (fun p => p.1 == x) with
-  | some p => p.2
-  | none => 0
-
-def absR (x : Rat) : Rat := if x < 0 then -x else x
-
-def nearest (t : List (Rat × Rat)) (x : Rat) : Option (Rat × Rat) :=
-  t.foldl (fun best p =>
-    match best with
-    | none => some p
-    | some b => if absR (p.1 - x) < absR (b.1 - x) then some p else some b) none
-
-/-- nearest-key lookup: the code evaluates `base ** k` at the float next to the exact argument -/
-def tabE (t : List (Rat × Rat)) (x : Rat) : Rat :=
-  match nearest t x with
-  | some p => p.2
-  | none => 0
-
-def errName : Err → String
-  | .valueError => "ValueError"
-  | .keyError => "KeyError"
-  | .typeError => "TypeError"
-  | .indexError => "IndexError"
-  | .assertionError => "AssertionError"
-  | .unsupported => "unsupported"
-
-def ofErr (e : Err) : Json := Json.mkObj [("err", errName e)]
-
-def isLog : Dim → Bool
-  | .real _ _ .logUniform _ => true
-  | .int _ _ .logUniform _ => true
-  | _ => false
-
-/-- the numbers `L` is applied to: bounds of the log dimensions and the numeric entries of
-their columns -/
-def lKeys (dims : List Dim) (X : List (List Val)) : List Rat :=
-  (dims.zipIdx.filter (fun p => isLog p.1)).flatMap (fun (d, j) =>
-    let b := match d with
-      | .real lo hi _ _ => [lo, hi]
-      | .int lo hi _ _ => [(lo : Rat), (hi : Rat)]
-      | _ => []
-    b ++ X.filterMap (fun r => (r[j]?).bind Val.toRat?))
-
-/-- the arguments of `base ** ·` during `inverse_transform` of column block `c` of dimension `d`
-(run the transformer inverse with the identity in place of `E`) -/
-def eArgs (L : Rat → Rat) (d : Dim) (c : Col) : List Rat :=
-  if isLog d then
-    match (d.transformer L).inverse (fun x => x) c with
-    | .ok (.vals l) => l.filterMap Val.toRat?
-    | _ => []
-  else []
-
-/-- the same slicing as `inverseCols` -/
-def slices : List Dim → List (List Rat) → List (Dim × Col)
-  | [], _ => []
-  | d :: ds, Xt =>
-    let off := d.transformedSize
-    let c := if off = 1 then Col.vals (Xt.filterMap (fun r => r.head?.map Val.num))
-             else Col.mat (Xt.map (List.take off))
-    (d, c) :: slices ds (Xt.map (List.drop off))
-
-def ofEArgs (tE : List (Rat × Rat)) (args : List Rat) : Json :=
-  .arr (args.map (fun a => match nearest tE a with
-    | some p => Json.arr #[ofRat a, ofRat p.1]
-    | none => Json.arr #[ofRat a, Json.null])).toArray
-
-def jCol (j : Json) : Except String Col := do
-  match j.getObjVal? "vals" with
-  | .ok v => return .vals (← jList jVal v)
-  | .error _ => return .mat (← jList (jList jRat) (← field j "mat"))
-
-def ofCol : Col → Json
-  | .vals l => Json.mkObj [("vals", .arr (l.map ofVal).toArray)]
-  | .mat rows => Json.mkObj [("mat", .arr (rows.map ofRats).toArray)]
 
 def handle (j : Json) : Except String Json := do
   let op ← (← field j "op").getStr?
